@@ -35,7 +35,7 @@ pub fn parse_ledger<'i, Deco: 'i + Decoration>(
     options: &ParseOptions,
     input: &'i str,
 ) -> impl Iterator<Item = Result<(ParsedContext<'i>, syntax::LedgerEntry<'i, Deco>), ParseError>> {
-    options.parse_repeated(parse_ledger_entry, character::newlines.void(), input)
+    options.parse_repeated(parse_ledger_entry, character::vertical_spaces, input)
 }
 
 /// Parses given `input` into [syntax::LedgerEntry].
@@ -111,6 +111,24 @@ mod tests {
                 ))
             )]
         );
+    }
+
+    #[test]
+    fn parse_ledger_skips_lines_with_only_spaces() {
+        let input = indoc! {"
+            ; comment
+              \t
+            2024/4/10 Migros
+                Expenses:Grocery
+             \t
+            2024/4/20 Coop
+                Expenses:Grocery
+        "};
+        let input = format!("{}  ", input);
+        let got = parse_ledger_into(&input);
+        assert_eq!(got.len(), 3);
+        assert_eq!(got[1].0.span, 14..52);
+        assert_eq!(got[2].0.span, 55..91);
     }
 
     #[test]
